@@ -238,7 +238,7 @@ def run_check(pid, tier, seed=0, procs=None):
     units = sorted(units, key=lambda d: -d.get('cost', 0))     # longest first (tail latency)
     procs = procs or min(16, max(1, len(units)))
     results = []
-    unit_timeout = float(os.environ.get('VERIF_UNIT_TIMEOUT', getattr(mod, 'UNIT_TIMEOUT', {}).get(tier, 420 if tier == 'quick' else 2400)))
+    unit_timeout = float(os.environ.get('VERIF_UNIT_TIMEOUT', getattr(mod, 'UNIT_TIMEOUT', {}).get(tier, 420 if tier == 'quick' else 1200)))
     if os.environ.get('VERIF_SERIAL'):
         for ud in units:
             results.append(_worker((modname, ud, tier, seed)))
